@@ -3,7 +3,10 @@ package main
 // rewrite: produces an instrumented copy of a Go source file for native replay only (the
 // copy is generated from the current tree and supplied to `go test` by -overlay):
 //   -now    every call time.Now() becomes zzverifhook.Now()   (deterministic replay clock)
-//   -yield  every statement is preceded by zzverifhook.Yield() (scheduler perturbation)
+//   -yield  every statement is preceded by zzverifhook.Yield() (scheduler perturbation), and
+//           every niladic x.Load() call becomes zzverifhook.After(x.Load()): a yield right after
+//           an atomic read, i.e. inside read-modify-write expressions such as
+//           c.Store(f(c.Load() + d))
 
 import (
 	"bytes"
@@ -50,6 +53,18 @@ func rewriteFile(in, out string, doNow, doYield bool) error {
 		}
 	}
 	if doYield {
+		astutil.Apply(f, func(c *astutil.Cursor) bool {
+			if call, ok := c.Node().(*ast.CallExpr); ok && len(call.Args) == 0 {
+				if sel, ok := call.Fun.(*ast.SelectorExpr); ok && sel.Sel.Name == "Load" {
+					if _, isStmt := c.Parent().(*ast.ExprStmt); !isStmt {
+						c.Replace(&ast.CallExpr{Fun: &ast.SelectorExpr{X: ast.NewIdent("zzverifhook"), Sel: ast.NewIdent("After")}, Args: []ast.Expr{call}})
+						used = true
+						return false
+					}
+				}
+			}
+			return true
+		}, nil)
 		hook := func() ast.Stmt {
 			return &ast.ExprStmt{X: &ast.CallExpr{Fun: &ast.SelectorExpr{X: ast.NewIdent("zzverifhook"), Sel: ast.NewIdent("Yield")}}}
 		}
